@@ -4,10 +4,12 @@ import (
 	"encoding/json"
 	"fmt"
 	"math/rand"
+	"os"
 	"sort"
 	"strconv"
 	"strings"
 	"sync"
+	"syscall"
 	"time"
 
 	"verif/harness/drivers/c05"
@@ -17,12 +19,48 @@ import (
 func init() {
 	drivers["c05"] = runC05
 	// resizes racing with child output can corrupt memory and kill the process: such scenarios run in children
-	drivers["c05child"] = func(o opts) error {
-		return childLoop(o, func(sc *c05.Scn) any {
-			evs, note := c05.RunConc(sc)
-			return &concRes{Events: evs, Note: note}
-		})
+	// ... and so do scenarios with a deadline: a sequence that does not return cannot be interrupted, the
+	// process that ran it is replaced
+	drivers["c05child"] = c05Child
+}
+
+// c05Child is childLoop with one addition: after a scenario that ended in a hang the result line is
+// written and the process replaces itself (same pid, so the parent notices nothing) to continue with the
+// next scenario without the goroutine that is still spinning.
+func c05Child(o opts) error {
+	i := strings.LastIndexByte(o.extra, ':')
+	start, _ := strconv.Atoi(o.extra[i+1:])
+	b, err := os.ReadFile(o.extra[:i])
+	if err != nil {
+		return err
 	}
+	var list []*c05.Scn
+	if err := json.Unmarshal(b, &list); err != nil {
+		return err
+	}
+	f, err := os.OpenFile(o.out, os.O_APPEND|os.O_CREATE|os.O_WRONLY, 0o644)
+	if err != nil {
+		return err
+	}
+	defer f.Close()
+	for k := start; k < len(list); k++ {
+		sc := list[k]
+		var res concRes
+		if sc.Conc != nil {
+			res.Events, res.Note = c05.RunConc(sc)
+		} else {
+			res.Events, res.Note = c05.Run(sc, time.Duration(sc.Deadline)*time.Millisecond)
+		}
+		line, _ := json.Marshal(&res)
+		f.Write(append(line, '\n'))
+		f.Sync()
+		if strings.HasPrefix(res.Note, "hang") && k+1 < len(list) {
+			self, _ := os.Executable()
+			f.Close()
+			return syscall.Exec(self, []string{self, "c05child", "-out", o.out, "-x", fmt.Sprintf("%s:%d", o.extra[:i], k+1)}, os.Environ())
+		}
+	}
+	return nil
 }
 
 type concRes struct {
@@ -30,7 +68,8 @@ type concRes struct {
 	Note   string
 }
 
-// runC05: -x selects the family: "state" = grammar + fuzz + fixed scenarios,
+// runC05: -x selects the family: "state" = grammar + fuzz + fixed scenarios + sixel strings (the latter in
+// child processes with a deadline per sequence; "sixel" = those alone),
 // "ex" = bounded-exhaustive sequences on screens up to 3x3 (both EmuSafe_Trace), "draw" = drawing into host windows
 // (EmuDraw_Trace), "stall" = event floods, and resizes concurrent with child output, on the real PTY
 // goroutine (EmuSafe_Trace). A replay descriptor selects its family by its fields.
@@ -69,10 +108,26 @@ func runC05(o opts) error {
 				for i := 0; i < nf; i++ {
 					scns = append(scns, c05.GenFuzz(rng, fb))
 				}
+				// sixel strings: every boundary / huge number in every place, and random pictures (own generator,
+				// see above; run in child processes with a per-sequence deadline)
+				scns = append(scns, c05.SixelFixed()...)
+				rng3 := rand.New(rand.NewSource(famSeed*104729 + 5))
+				for i := 0; i < ng*4/5; i++ {
+					scns = append(scns, c05.GenSixel(rng3))
+				}
 				// resize histories on the alternate screen (own generator so that the scenarios above keep their seeds)
 				rng2 := rand.New(rand.NewSource(famSeed*7919 + 17))
 				for i := 0; i < ng/2; i++ {
 					scns = append(scns, c05.GenAltResize(rng2))
+				}
+			case "sixel": // the sixel part of the state family alone (development)
+				scns = append(scns, c05.SixelFixed()...)
+				n := 400
+				if thorough {
+					n = 9600
+				}
+				for i := 0; i < n; i++ {
+					scns = append(scns, c05.GenSixel(rng))
 				}
 			case "ex":
 				// bounded-exhaustive: depth 1 from every start state on every size up to 3x3; depth 2
@@ -172,7 +227,7 @@ func runC05(o opts) error {
 	var conc []*c05.Scn
 	var concAt []int
 	for i, sc := range scns {
-		if sc.Conc != nil {
+		if sc.Conc != nil || sc.Deadline > 0 {
 			conc, concAt = append(conc, sc), append(concAt, i)
 			continue
 		}
@@ -182,6 +237,12 @@ func runC05(o opts) error {
 	wg.Wait()
 	if len(conc) > 0 {
 		raw := runChildren("c05child", o.out, conc, func(i int, msg string) any {
+			if sc := conc[i]; sc.Conc == nil {
+				// the process died while it ran a scenario with a deadline (a fatal error of the runtime, such as
+				// memory exhausted, is not a panic that can be recovered): which sequence it was is not known
+				return &concRes{Note: msg, Events: []trace.Ev{{"ev": "reset", "rows": sc.Rows, "cols": sc.Cols, "o": c05.FreshObs(sc.Cols, sc.Rows)},
+					{"ev": "panic", "k": "process", "msg": c05.Ascii("process died: "+msg, 120)}}}
+			}
 			return &concRes{Note: msg, Events: []trace.Ev{{"ev": "reset", "rows": 4, "cols": 20, "o": c05.FreshObs(20, 4)},
 				c05.ConcEv(conc[i].Conc.N, false, 1, "process died: "+msg)}}
 		})
